@@ -262,6 +262,20 @@ def _sym_str_method(eng, name, s, args, kw):
         return z3.IndexOf(zs, to_z3(args[0]), z3.IntVal(0))
     if name == "join":
         return _concrete_str_method("join")(eng, s, *args)
+    if name in ("strip", "lstrip", "rstrip") and len(args) == 1 and isinstance(args[0], str) and len(args[0]) == 1:
+        # exact meaning for a one-character set: s = p ++ r ++ q with p, q in c*, r neither starting nor ending with c
+        c = z3.StringVal(args[0])
+        r = eng.fresh_str("stripped")
+        p_ = eng.fresh_str("strip_l") if name != "rstrip" else z3.StringVal("")
+        q_ = eng.fresh_str("strip_r") if name != "lstrip" else z3.StringVal("")
+        cs = z3.Star(z3.Re(c))
+        conds = [zs == z3.Concat(p_, r, q_)]
+        if name != "rstrip":
+            conds += [z3.InRe(p_, cs), z3.Not(z3.PrefixOf(c, r))]
+        if name != "lstrip":
+            conds += [z3.InRe(q_, cs), z3.Not(z3.SuffixOf(c, r))]
+        eng.assume(z3.And(conds))
+        return r
     if name in ("lower", "upper", "strip", "lstrip", "rstrip", "split", "rsplit"):
         raise Unsupported("str.%s on a symbolic string" % name)
     raise Unsupported("str.%s on a symbolic string" % name)
